@@ -77,6 +77,16 @@ func genValue() *rapid.Generator[string] {
 	return rapid.OneOf(
 		rapid.SampledFrom(fixedValues),
 		rapid.Custom(func(t *rapid.T) string {
+			if rapid.IntRange(0, 3).Draw(t, "binary") == 2 {
+				// binary payloads (runs of zero bytes followed by non-zero ones, like little-endian integers): whatever a
+				// torn or failed write leaves behind a shorter record then looks like a record header to a careless scan
+				n := rapid.IntRange(20, 60).Draw(t, "blen") // 42+bucket+key+60 stays below the smallest segment size (120)
+				b := make([]byte, n)
+				for i := range b {
+					b[i] = rapid.SampledFrom([]byte{0, 0, 0, 0, 1, 0xff, 'a', 0x10}).Draw(t, "bb")
+				}
+				return string(b)
+			}
 			n := rapid.IntRange(0, 24).Draw(t, "vlen")
 			b := make([]byte, n)
 			for i := range b {
